@@ -24,6 +24,9 @@ GEN_KEYS = (
 
 contract(
     "ascmhl.commands.seal_file_path",
+    bounded="176 of 209 obligations discharge; the preservation of the ghost call-log invariants through the two judging loops "
+    "(whole-field heap havoc by append_file_hash + tuple-valued result dict) stays `unknown` - the ordering of judgements is checked "
+    "by the C04 small-world driver on all format-subset sequences instead",
     params={"existing_history": "MHLHistory", "file_path": "str", "hash_formats": "list[str]", "session": "MHLGenerationCreationSession"},
     returns="dict[str,tuple[str,bool]]",
     locals={"hash_formats_to_generate": "list[str]", "hash_result_lookup": "dict[str,tuple[str,bool]]", "existing_hash_formats": "list[str]",
